@@ -96,6 +96,14 @@ def clone(n):
 
 
 # --------------------------------------------------------------------------
+def _simple_assign(st: ast.stmt) -> str | None:
+    if isinstance(st, ast.Assign) and len(st.targets) == 1 and isinstance(st.targets[0], ast.Name):
+        return st.targets[0].id
+    if isinstance(st, ast.AnnAssign) and st.value is not None and isinstance(st.target, ast.Name):
+        return st.target.id
+    return None
+
+
 class Resolver:
     """Substitute single-assignment locals by their defining expression
     (depth-bounded), so that `two = one.match_fragment(...)` followed by a
@@ -178,9 +186,22 @@ class Resolver:
                             e = ast.IfExp(test=clone(st.test), body=clone(a), orelse=clone(b))
                             self.defs[name] = ast.fix_missing_locations(ast.copy_location(e, st))
                             two.discard(name)
+        # a defaulted parameter: `if c: p = A` (the only assignment to parameter p, at the top level of
+        # the function, before any other use of p than in c)  ==  `p = A if c else p`
+        self.selfdefs: set[str] = set()
+        body = list(getattr(fn, "body", []))
+        for idx, st in enumerate(body):
+            if isinstance(st, ast.If) and not st.orelse and len(st.body) == 1:
+                nm = _simple_assign(st.body[0])
+                if nm in params and counts.get(nm) == 1 and nm not in mutated and nm not in set(keep):
+                    used_before = any(isinstance(x, ast.Name) and x.id == nm for p_ in body[:idx] for x in ast.walk(p_))
+                    if not used_before:
+                        e = ast.IfExp(test=clone(st.test), body=clone(st.body[0].value), orelse=ast.Name(id=nm, ctx=ast.Load()))  # type: ignore[attr-defined]
+                        self.defs[nm] = ast.fix_missing_locations(ast.copy_location(e, st))
+                        self.selfdefs.add(nm)
         self.depth = depth
 
-    def expr(self, e: ast.expr, depth: int | None = None) -> ast.expr:
+    def expr(self, e: ast.expr, depth: int | None = None, _skip: frozenset = frozenset()) -> ast.expr:
         depth = self.depth if depth is None else depth
         if depth <= 0:
             return e
@@ -189,8 +210,11 @@ class Resolver:
 
         class T(ast.NodeTransformer):
             def visit_Name(self, node: ast.Name) -> ast.AST:
-                if isinstance(node.ctx, ast.Load) and node.id in defs:
-                    return outer.expr(clone(defs[node.id]), depth - 1)
+                if isinstance(node.ctx, ast.Load) and node.id in defs and node.id not in _skip:
+                    # a defaulted parameter is defined in terms of itself (`p = A if p is None else p`):
+                    # its own occurrences inside the definition are the incoming value
+                    sk = _skip | {node.id} if node.id in outer.selfdefs else _skip
+                    return outer.expr(clone(defs[node.id]), depth - 1, sk)
                 return node
 
             def visit_Lambda(self, node: ast.Lambda) -> ast.AST:
